@@ -49,7 +49,7 @@ def items(tier, seed):
         for r in ROUTES:
             if r in ("own-unit.derived", "db.Convert.exp"):
                 continue
-            for n in ([2] if not r.split(".")[-1] in ("list", "tuple", "numpy", "tuples") and "array" not in r else [0, 1, 3]):
+            for n in ([2] if not r.split(".")[-1] in ("list", "tuple", "numpy", "tuples") and "array" not in r else [1, 2, 3] if r.endswith("tuples") else [0, 1, 3]):
                 out.append({"r": r, "qt": qt, "cat": cat, "u": u, "v": v, "n": n})
     for qt, u, v in EXP_PAIRS:
         for e in (2, 3, -1, -2):
@@ -80,6 +80,9 @@ def items(tier, seed):
             r = rng.choice([x for x in ROUTES if x not in SCALAR_ROUTES and x not in ("own-unit.derived", "db.Convert.exp", "category-default")])
             out.append({"r": r, "qt": qt, "cat": qt, "u": u, "v": v, "n": rng.choice([1, 2, 3])})
     out[0]["canary"] = True
+    for i, c in enumerate(out):
+        if i % 2 == 0 and c["r"] not in ("category-default", "own-unit.derived"):
+            c["prelude"] = True
     rng.shuffle(out)
     return out
 
@@ -114,6 +117,18 @@ def run(cfg, V):
     r, qt, cat, u, v = cfg["r"], cfg["qt"], cfg["cat"], cfg["u"], cfg["v"]
     db = UnitDatabase.GetSingleton()
     x = V["x0"]
+    if cfg.get("prelude") and u and v:
+        # history: conversions of an Unknown-quantity object to/from the very units used below, and a failing lookup
+        from barril.units import GetUnknownQuantity, UnitsError
+
+        ua = Array(GetUnknownQuantity("x"), [1.0, 2.0])
+        ua.GetValues(v), ua.GetValues(u)
+        Scalar(GetUnknownQuantity(), 1.0).GetValue(v)
+        Array(GetUnknownQuantity(), (1.0,)).GetValues(u)
+        try:
+            db.Convert("time", "s", v, 1.0) if qt != "time" else db.Convert("length", "m", v, 1.0)
+        except UnitsError:
+            pass
     if r == "scalar.GetValue":
         s = Scalar(x, u, cat)
         return {"vals": [s.GetValue(v)], "own": s.GetValue(s.GetUnit()) is x and s.GetValue() is x, "own_spelled": [s.GetValue(u)]}
@@ -148,11 +163,11 @@ def run(cfg, V):
         xs = _xs(cfg, V)
         kind = r.split(".")[-1]
         if kind == "tuples":
-            cont = [(V["x0"], V["x1"]), (V["x2"],)][: max(cfg["n"], 1)]
+            cont = {1: [(V["x0"], V["x1"])], 2: [(V["x0"],), (V["x1"], V["x2"])], 3: [(V["x0"], V["x1"]), (V["x2"],)]}[min(max(cfg["n"], 1), 3)]
             a = Array(cont, u, cat)
             res = a.GetValues(v)
             flat = [e for t in res for e in t]
-            return {"vals": flat, "ctype": type(res).__name__ + "/" + ",".join(type(t).__name__ for t in res), "want_ctype": "list/" + ",".join("tuple" for _ in cont),
+            return {"vals": flat, "ctype": type(res).__name__ + "/" + ",".join(type(t).__name__ for t in res), "want_ctype": "list/" + ",".join("tuple" for _ in cont), "rows": [len(t) for t in res], "want_rows": [len(t) for t in cont],
                     "flat_in": [e for t in cont for e in t]}
         if kind in ("list", "CreateCopy"):
             cont = list(xs)
@@ -268,6 +283,8 @@ def props(cfg, T, obs):
             P.append(("category and quantity-type spellings agree", approx(obs["via_qt"][0], obs["vals"][0])))
     elif cfg["n"] == 0:
         P.append(("empty container converts to empty", True))
+    if "rows" in obs:
+        P.append(("tuple-of-tuples keeps its row structure", obs["rows"] == obs["want_rows"]))
     if "ctype" in obs:
         P.append(("container kind preserved", obs["ctype"] == obs["want_ctype"]))
     if "meta" in obs:
@@ -293,4 +310,4 @@ def props(cfg, T, obs):
 def finding_key(cfg, name):
     if cfg["r"] == "own-unit.derived":
         return "own-unit.derived %s :: %s" % (cfg["spec"], name)
-    return "%s %s[%s] %s->%s :: %s" % (cfg["r"], cfg["qt"], cfg["cat"], cfg["u"], cfg["v"], name)
+    return "%s%s %s[%s] %s->%s :: %s" % (cfg["r"], " after unknown-quantity prelude" if cfg.get("prelude") else "", cfg["qt"], cfg["cat"], cfg["u"], cfg["v"], name)
